@@ -636,3 +636,38 @@ hists!(hist__bvd_bvd, Bvd, Bvd);
 hists!(hist__bvd_f642, Bvd, F642);
 hists!(hist__bv_bv, Bv, Bv);
 hists!(hist__bv_bvd, Bv, Bvd);
+
+// ---------------------------------------------------------------------------------------------- C15 bounded stand-in (Kani)
+// from_binary / from_hex of Bvf<u8,2> on EVERY string of up to 2 characters over an alphabet with valid digits, invalid ASCII and a
+// two-byte character; assembled in a stack buffer (no String/Vec/format!, which CBMC cannot take at useful bounds)
+pub fn parsek__f82<S: Src>(s: &mut S) {
+    const ALPHA: [char; 6] = ['0', '1', '9', 'F', 'g', '\u{e9}'];
+    let n = s.upto(2);
+    let mut buf = [0u8; 8];
+    let mut cs = ['0'; 2];
+    let mut len = 0usize;
+    let mut i = 0;
+    while i < n {
+        let c = ALPHA[s.upto(5)];
+        cs[i] = c;
+        len += c.encode_utf8(&mut buf[len..]).len();
+        i += 1;
+    }
+    // the pieces are produced by char::encode_utf8: valid UTF-8 by construction
+    let st: &str = unsafe { core::str::from_utf8_unchecked(&buf[..len]) };
+    let cap = 16usize;
+    // binary
+    let rb = F82::from_binary(st);
+    let mut bad_b: Option<usize> = None; let mut eb = 0u32;
+    let mut k = 0; while k < n { if bad_b.is_none() && cs[k] != '0' && cs[k] != '1' { bad_b = Some(k); } eb = (eb << 1) | (if cs[k] == '1' { 1 } else { 0 }); k += 1; }
+    if n > cap { assert!(rb.is_err()); }
+    else if let Some(p) = bad_b { assert!(rb == Err(ConvertionError::InvalidFormat(p))); }
+    else { let v = rb.unwrap(); assert!(v.wf() && v.len() == n); assert!(v.val() == eb as u128); }
+    // hex
+    let rh = F82::from_hex(st);
+    let mut bad_h: Option<usize> = None; let mut eh = 0u32;
+    let mut k = 0; while k < n { match cs[k].to_digit(16) { Some(d) => { eh = (eh << 4) | d as u32; } None => { if bad_h.is_none() { bad_h = Some(k); } } } k += 1; }
+    if 4 * n > cap { assert!(rh.is_err()); }
+    else if let Some(p) = bad_h { assert!(rh == Err(ConvertionError::InvalidFormat(p))); }
+    else { let v = rh.unwrap(); assert!(v.wf() && v.len() == 4 * n); assert!(v.val() == eh as u128); }
+}
